@@ -72,6 +72,8 @@ func genHpackTables(repo string) (string, error) {
 //	h2_write_chunk              mhttp2.go MFramer.writeData: const maxFrameSize
 //	h2_stream_err_drains        mhttp2.go MFramer.ReadFrame: a StreamError path drains the offending frame (data.Drain inside `if _, ok := err.(StreamError)`)
 //	h2_dispatch_continues       stream/http2/stream.go Dispatch (server and client): a StreamError does not leave the decode loop
+//	h2_hpack_at_u64cmp          hpack.go Decoder.at: the dynamic-table range test compares the uint64 index (`i > uint64(d.maxTableIndex())`, true)
+//	                            or the converted int (`pos := int(i) - staticTable.len(); if pos > dt.len()`, false)
 //	h2_hpack_multi_update       hpack.go Decoder.Write: `d.firstField = false` in the parse loop is guarded by `if !sizeUpdate` (true) or unconditional (false)
 func genH2Src(repo string) (string, error) {
 	var b strings.Builder
@@ -342,6 +344,48 @@ func genH2Src(repo string) (string, error) {
 		multi = "false"
 	}
 	fmt.Fprintf(&b, "Definition h2_hpack_multi_update := %s.\n", multi)
+	// --- hpack Decoder.at
+	atcmp := ""
+	if fd := FindFunc(hf, "Decoder", "at"); fd != nil {
+		u64test, intconv := false, false
+		ast.Inspect(fd.Body, func(n ast.Node) bool {
+			switch x := n.(type) {
+			case *ast.BinaryExpr:
+				if x.Op == token.GTR {
+					if id, isId := x.X.(*ast.Ident); isId && id.Name == "i" {
+						if c, isCall := x.Y.(*ast.CallExpr); isCall {
+							if f, isF := c.Fun.(*ast.Ident); isF && f.Name == "uint64" {
+								u64test = true
+							}
+						}
+					}
+				}
+			case *ast.AssignStmt:
+				// pos := int(i) - ...
+				if len(x.Rhs) == 1 {
+					if be, isBe := x.Rhs[0].(*ast.BinaryExpr); isBe && be.Op == token.SUB {
+						if c, isCall := be.X.(*ast.CallExpr); isCall {
+							if f, isF := c.Fun.(*ast.Ident); isF && f.Name == "int" {
+								intconv = true
+							}
+						}
+					}
+				}
+			}
+			return true
+		})
+		switch {
+		case u64test && !intconv:
+			atcmp = "true"
+		case !u64test && intconv:
+			atcmp = "false"
+		}
+	}
+	if atcmp == "" {
+		ok = false
+		atcmp = "false"
+	}
+	fmt.Fprintf(&b, "Definition h2_hpack_at_u64cmp := %s.\n", atcmp)
 	fmt.Fprintf(&b, "Definition H2Src_translator_ok := %v.\n", ok)
 	return b.String(), nil
 }
